@@ -155,6 +155,9 @@ def execute(case):
 # ---- part e2e: end-to-end equivalence with a from-scratch evaluation
 
 
+SUB = 'b'
+
+
 def _h(*parts):
     import hashlib
 
@@ -187,6 +190,9 @@ def exec_e2e(case):
     epoch = {}
     sens = case['sens']
     runs = {}
+    split = case.get('split')
+    if split is not None:
+        split %= len(spec['algs'])
 
     def hook(alg, ds):
         tag = f'{ds._task()}.{alg.name()}'
@@ -213,6 +219,18 @@ def exec_e2e(case):
             # an algorithm may save intermediate results more than once; the
             # second report of an unchanged value says "not new"
             ds.update()
+        if split is not None and i == split and '(' not in tn:
+            # the algorithm also files its result under a sub-target
+            # (Dataset.retarget): the affected target of that report is the
+            # sub-target, not the target the run was made for
+            sub = ds.retarget(SUB, [])
+            n = 0
+            for sv in alg.state_vectors():
+                for vn in sv:
+                    e = ep(tag, tn) if (sens[i] >> n) & 1 else 0
+                    sv[vn].content = _h(sub._tn(), tag, sv.name(), vn, ins, e)
+                    n += 1
+            sub.update()
 
     dawgie._verif_run_hook = hook
     try:
@@ -316,6 +334,61 @@ def exec_e2e(case):
                     break
             if out.failures:
                 break
+            if split is None:
+                continue
+            # ---- the sub-target: what the splitting algorithm filed there,
+            # and everything downstream of it evaluated for the sub-target
+            # (values of other algorithms do not exist there: default content)
+            stag = s.ref.tag[split]
+            stn = f'{tn} ({SUB})'
+            sref = {}
+            for i, a in enumerate(spec['algs']):
+                tag = s.ref.tag[i]
+                down = tag in s.ref.descendants[stag]
+                if tag == stag:
+                    ins = sorted(
+                        (v.rsplit('.', 2)[0], v.split('.')[-2],
+                         v.split('.')[-1], ref[v]) for v in s.ref.inputs[tag])
+                elif down:
+                    ins = sorted(
+                        (v.rsplit('.', 2)[0], v.split('.')[-2],
+                         v.split('.')[-1], sref.get(v))
+                        for v in s.ref.inputs[tag])
+                n = 0
+                for sv in a['svs']:
+                    for v in sv['vals']:
+                        full = f'{tag}.{sv["name"]}.{v["name"]}'
+                        if tag == stag:
+                            e = ep(tag, tn) if (sens[i] >> n) & 1 else 0
+                            sref[full] = _h(stn, tag, sv['name'], v['name'],
+                                            ins, e)
+                        elif down:
+                            sref[full] = _h(stn, tag, sv['name'], v['name'],
+                                            ins, 0)
+                        n += 1
+            for full, want in sorted(sref.items()):
+                tag, svn, vn = full.rsplit('.', 2)
+                got = latest.get((stn, tag, svn, vn))
+                if got is None:
+                    out.fail('e2e/value-never-stored@sub-target',
+                             f'{stn} {full}: {stag} files its result for '
+                             f'{tn} under {stn}; {tag} declares it as input '
+                             'and never ran for that sub-target')
+                    break
+                content = dbu.decode(got[1]).content
+                if content != want:
+                    out.fail(
+                        'e2e/stored-differs-from-scratch-evaluation'
+                        + ('@content-seen-before' if revert
+                           else '@sub-target'),
+                        f'{stn} {full}: latest stored (run {got[0]}) is '
+                        f'{content}, from scratch {want}')
+                    break
+            if sref and len(sref) > sum(
+                    len(sv['vals']) for sv in spec['algs'][split]['svs']):
+                out.label('sub-target-with-consumers')
+            if out.failures:
+                break
         if any(len(s.ref.descendants[t]) >= 2 for t in s.ref.tag):
             out.label('chain>=3')
         out.label(f'bumps-{min(bumps, 4)}')
@@ -358,6 +431,7 @@ def _e2e_case():
                                    max_size=5)),
             'mode': draw(st.sampled_from(['unique'] * 5 + ['revert'])),
             'twice': draw(st.sampled_from([0, 0, 1, 2, 3, 31])),
+            'split': draw(st.sampled_from([None, None, 0, 0, 1, 2])),
         }
 
     return build()
